@@ -48,7 +48,7 @@ theorem groups_encodeTree_false (sup : Option Pos) (p : Pos) (r : Bool) : (encod
   · by_cases h1 : (sup == some Pos.first || sup == some Pos.middle) = true
     · simp [h1, siteIntermediate, anyStar, Re.groups, Re.groupsL]
     · simp [h1, siteLast, anyStar, Re.groups, Re.groupsL]
-  · by_cases h1 : (r && sup.isNone) = true <;> simp [h1, siteOnly, siteOnlyRooted, anyStar, Re.groups, Re.groupsL]
+  · by_cases h1 : (r && (sup.isNone || sup == some Pos.first || sup == some Pos.only)) = true <;> simp only [h1] <;> simp [siteOnly, siteOnlyRooted, anyStar, Re.groups, Re.groupsL]
 
 theorem groups_encodeTree_true (sup : Option Pos) (p : Pos) (r : Bool) : (encodeTree true sup p r).groups = 1 := by
   cases p <;> simp only [encodeTree]
@@ -59,7 +59,7 @@ theorem groups_encodeTree_true (sup : Option Pos) (p : Pos) (r : Bool) : (encode
   · by_cases h1 : (sup == some Pos.first || sup == some Pos.middle) = true
     · simp [h1, siteIntermediate, anyStar, Re.groups, Re.groupsL]
     · simp [h1, siteLast, anyStar, Re.groups, Re.groupsL]
-  · by_cases h1 : (r && sup.isNone) = true <;> simp [h1, siteOnly, siteOnlyRooted, anyStar, Re.groups, Re.groupsL]
+  · by_cases h1 : (r && (sup.isNone || sup == some Pos.first || sup == some Pos.only)) = true <;> simp only [h1] <;> simp [siteOnly, siteOnlyRooted, anyStar, Re.groups, Re.groupsL]
 
 mutual
   /-- nothing nested captures -/
